@@ -45,6 +45,11 @@ CHECKS["C19"] = ("model_checking",
     "Trusted: RunCsv.tla, TrgV3.tla; the harness's MIDAS writer and CSV reader; vertex columns are compared with the library called on the same banks (no independent numeric oracle); only differences of trg_time are asserted.",
     "§4 C19")
 
+CHECKS["C18"] = ("model_checking",
+    "Drift.tla states the lookup over rank-abstracted inputs (how many slice bounds lie below |z|, how many knots before t, whether t hits a knot). TLC exhausts the index logic on an abstract table, and validates tens of thousands (thorough: ~600k) of real SpacePoint::try_from calls against the integer export of the shipped table: success/error class incl. inclusive ends and every slice bound +-1 ulp, knot bracket, knot reproduction to 1e-12 m, interpolation, Lorentz correction range, bit-identical mirror z/-z, and sweeps 8 ns apart for monotonicity and the 0.5 mm bound (finding F6 below 144 ns is listed as known).",
+    "Trusted: Drift.tla; the harness's JSON reader/exporter and its exact-comparison ranks (input abstraction). Numeric accuracy beyond the stated integer quanta is not judged.",
+    "§4 C18")
+
 NOT_APPLICABLE = {
     "C12": "population statistics of a floating-point pipeline against a physical forward model; TLA+/TLC has no reals or floats, so the spec cannot be the oracle",
     "C16": "decisive clause is a floating-point global minimisation over a continuum; only a numeric brute force could referee it, which is a different technique",
